@@ -2,6 +2,7 @@
     encodings represents it (proofs in Proofs_C09.v; per-operation layout-independence corollaries
     of the refinement theorems are added in Proofs_C02.v when present). *)
 From AwkV Require Import Layout Carry Proofs_C09.
+From AwkV Require Import Valid Types AtAxis Ops_Struct Proofs_Lists Proofs_ToList Proofs_Carry Proofs_AtAxis Proofs_AtAxisOps Proofs_C02.
 
 Theorem byte_mask_encoding_irrelevant : forall m vw c vs,
   to_list c = Ok vs ->
@@ -23,3 +24,51 @@ Theorem unmasked_encoding_irrelevant : forall c vs,
   to_list (Unmasked c) = to_list (IndexedOption I64 (iota (clen c)) c).
 Proof. exact unmasked_as_indexedoption. Qed.
 Print Assumptions unmasked_encoding_irrelevant.
+
+(* two valid layouts with the same type and the same value give the same observable result:
+   corollaries of the refinement theorems (the result is a function of type and value only) *)
+Theorem layout_independent_num : forall a b vs axis,
+  Valid None a -> Valid None b -> frag a = true -> frag b = true ->
+  to_list a = Ok vs -> to_list b = Ok vs -> type_of a = type_of b ->
+  obs (num_model axis a) = obs (num_model axis b).
+Proof. exact (fun a b vs axis Ha Hb Fa Fb La Lb T => layout_independent_num_partial a b vs Ha Hb Fa Fb La Lb T axis). Qed.
+Print Assumptions layout_independent_num.
+
+Theorem layout_independent_local_index : forall a b vs axis,
+  Valid None a -> Valid None b -> frag a = true -> frag b = true ->
+  to_list a = Ok vs -> to_list b = Ok vs -> type_of a = type_of b ->
+  obs (localindex_model axis a) = obs (localindex_model axis b).
+Proof. exact (fun a b vs axis Ha Hb Fa Fb La Lb T => layout_independent_localindex_partial a b vs Ha Hb Fa Fb La Lb T axis). Qed.
+Print Assumptions layout_independent_local_index.
+
+Theorem layout_independent_pad : forall a b vs target axis,
+  Valid None a -> Valid None b -> frag a = true -> frag b = true ->
+  to_list a = Ok vs -> to_list b = Ok vs -> type_of a = type_of b ->
+  obs (rpad_model target axis a) = obs (rpad_model target axis b) /\
+  obs (rpadclip_model target axis a) = obs (rpadclip_model target axis b).
+Proof.
+  exact (fun a b vs target axis Ha Hb Fa Fb La Lb T =>
+           conj (layout_independent_rpad_partial a b vs Ha Hb Fa Fb La Lb T target axis)
+                (layout_independent_rpadclip_partial a b vs Ha Hb Fa Fb La Lb T target axis)).
+Qed.
+Print Assumptions layout_independent_pad.
+
+Theorem layout_independent_combinations : forall a b vs n repl axis,
+  Valid None a -> Valid None b -> frag a = true -> frag b = true ->
+  to_list a = Ok vs -> to_list b = Ok vs -> type_of a = type_of b ->
+  obs (comb_model n repl axis a) = obs (comb_model n repl axis b).
+Proof. exact (fun a b vs n repl axis Ha Hb Fa Fb La Lb T => layout_independent_combinations_partial a b vs Ha Hb Fa Fb La Lb T n repl axis). Qed.
+Print Assumptions layout_independent_combinations.
+
+Theorem layout_independent_carry : forall a b vs ix,
+  Valid None a -> Valid None b -> to_list a = Ok vs -> to_list b = Ok vs ->
+  Forall (fun i => 0 <= i < zlen vs) ix ->
+  obs (carry a ix) = obs (carry b ix).
+Proof. exact layout_independent_carry_partial. Qed.
+Print Assumptions layout_independent_carry.
+
+(* n-d NumpyArray and RegularArray chains are the same value and the same type *)
+Theorem numpy_shape_is_regular_nesting : forall c,
+  Valid None c -> frag c = true -> to_list (expand c) = to_list c /\ type_of (expand c) = type_of c.
+Proof. exact (fun c H F => conj (expand_to_list c H F) (expand_type_of c H F)). Qed.
+Print Assumptions numpy_shape_is_regular_nesting.
